@@ -17,13 +17,13 @@ ASSUMPTIONS = ["adjust_spec assumes EarlyReturnSound (monotone cumulative factor
                "theorems over exact rationals; implementation compared bit-for-bit with the Float instance of the same model text"]
 
 
-def gen_scenario(rnd, nonmonotone=False):
+def gen_scenario(rnd, nonmonotone=False, first_kind=None):
     ndays = rnd.randrange(12, 40)
     cal = B.calendar(rnd, ndays)
     S = {"cal": cal, "stocks": [], "futures": [], "div": {}, "split": {}, "fac": {}, "sus": {}, "trf": {}, "warm": 0}
     for k in range(rnd.randrange(1, 4)):
-        kind = rnd.choice(["CS", "CS", "ETF"])
-        oid = ("%06d.XSHE" % (k + 1)) if kind == "CS" else ("5100%02d.XSHG" % (k + 1))
+        kind = first_kind if (first_kind and k == 0) else rnd.choice(["CS", "CS", "CS", "ETF", "ETF", "LOF"])      # every adjusting type the bundle serves (LOF: listed open-ended funds, funds.h5)
+        oid = ("%06d.XSHE" % (k + 1)) if kind == "CS" else ("5100%02d.XSHG" % (k + 1)) if kind == "ETF" else ("1600%02d.XSHE" % (k + 1))
         listed_i = 0 if rnd.random() < 0.6 else rnd.randrange(0, ndays // 2)
         nev = rnd.choice([0, 1, 1, 2, 3, 4])
         ex_days = sorted(rnd.sample(range(listed_i + 1, ndays), min(nev, max(0, ndays - listed_i - 1))))
@@ -298,7 +298,7 @@ def run(ctx):
     n_scen = ctx.n(10, 300)
     for k in range(n_scen):
         nonmono = (k % 5 == 4)
-        S = gen_scenario(random.Random(ctx.rnd.random()), nonmonotone=nonmono)
+        S = gen_scenario(random.Random(ctx.rnd.random()), nonmonotone=nonmono, first_kind=["CS", "ETF", "LOF"][k % 3])
         one_scenario(ctx, S, nonmono, ctx.n(40, 60) if ctx.tier == "quick" else 60, corrs)
 
 
